@@ -134,6 +134,14 @@ Definition copy_ctor (p : plan) (src : fv) : fv * outcome :=
   | Some xs => make_from p (cap src) xs
   end.
 
+(* ---- fixed_vector(capacity, other_fixed_vector): the public two-argument constructor with another fixed_vector as
+   the iterable (the copy constructor is the instance capacity = v.capacity_) ---- *)
+Definition make_from_obj (p : plan) (c : nat) (src : fv) : fv * outcome :=
+  match iterate src with
+  | None => (make c, OutOfStorage)
+  | Some xs => make_from p c xs
+  end.
+
 (* ---- fixed_vector(fixed_vector&& v) : fixed_vector(v.capacity_) { swap(size_, v.size_); swap(data_, v.data_); }
    result: (the new object, the source afterwards) ---- *)
 Definition move_ctor (src : fv) : fv * fv :=
@@ -255,7 +263,8 @@ Inductive op :=
 | OEmplaceAt (i pos k : nat) | OEmplaceBackAt (i k : nat) | OInsertAt (i k : nat) | OPushBackAt (i k : nat)
 | OInsertSelfRange (i pos a b : nat) | OPushBackSelfRange (i a b : nat)
 (* positions before begin(): erase(begin()-d), emplace(begin()-d, v), insert(begin()-d, first, last) *)
-| OEraseBefore (i d : nat) | OEmplaceBefore (i d v : nat) | OInsertRangeBefore (i d : nat) (xs : list nat).
+| OEraseBefore (i d : nat) | OEmplaceBefore (i d v : nat) | OInsertRangeBefore (i d : nat) (xs : list nat)
+| OConstructFrom (i c j : nat)              (* pool[i] = fixed_vector(c, pool[j])     *).
 
 (* a constructor into pool[i]: the old object (if any) is destroyed first; a throwing constructor leaves nothing *)
 Definition construct (P : pool) (i : nat) (r : fv * outcome) : pool * outcome :=
@@ -317,6 +326,9 @@ Definition pstep (p : plan) (o : op) (P : pool) : pool * outcome :=
   | OEraseBefore i _ => on_obj P i erase_before
   | OEmplaceBefore i _ _ => on_obj P i emplace_before
   | OInsertRangeBefore i _ _ => on_obj P i insert_range_before
+  | OConstructFrom i c j =>
+      if i =? j then (P, Skipped) else
+      match pget P j with None => (P, Skipped) | Some src => construct P i (make_from_obj p c src) end
   end.
 
 (* a history: every operation with its own fault plan; the list of outcomes is kept *)
